@@ -1,6 +1,36 @@
 SPEC = dict(
     kind="py", module="c24", design_ref="§3-C24",
-    technique="bounded-exhaustive enumeration of (program, input) pairs through the real CLI code path against a reference model of jq 1.7.1 "
-              "bound to the recorded jq-1.7.1 traces and cross-witnessed by jq 1.6",
-    rule="placeholder", level_text="placeholder", level_note="placeholder", assumptions=[],
+    technique="bounded-exhaustive enumeration of (jq program, JSON input) pairs through the real CLI code path, differential against a "
+              "reference model of the jq 1.7.1 core fragment that is bound to the recorded jq-1.7.1 traces and cross-witnessed by jq 1.6",
+    rule="programs: P(1) = every base term (~360: every nullary builtin of the fragment, every builtin with an argument template, every "
+         "operator on ./literal pairs, paths, slices, construction, as-bindings and destructuring, reduce/foreach, if, try/catch, ?, "
+         "label/break, //, assignment forms, format strings) plus the operator matrix (11 operators x 15 x 15 literal representatives of "
+         "every type); P(2) = a | b over the base set (quick: 50 second stages) and every base term in 21 unary contexts ([a], (a)?, "
+         "try/catch, map, first, limit, path, del, =, |=, //, if, reduce, isempty, as, -, not ...). inputs: 17 documents (null, booleans, "
+         "small integers, 1.5, strings incl. non-ASCII, arrays, objects without duplicate keys; quick runs P(2) on 4 of them, thorough "
+         "pipes on 12). A case is one (program, input) pair; non-trivial = distinct (output sequence, error) answer of the oracle. "
+         "Pairs whose program hits a divergence listed in docs/compliance/jq/limitations.md (table keyed on construct) are excluded and "
+         "counted; pairs the model does not cover are counted as outside the fragment; pairs on which jq 1.6 does not confirm the model "
+         "(in its documented-1.6-behaviour mode) are counted as oracle-undetermined and are not judged.",
+    level_text="Every enumerated pair is run through the real `succinctly jq -c PROGRAM` code path (clap parser + run_jq via the batch "
+               "hook) and its stdout values, exit status and error message are compared with the model's jq 1.7.1 answer. A pair is "
+               "judged only where two independent sources agree on jq's answer: the model (which reproduces byte for byte every "
+               "recorded jq-1.7.1 golden case and error-table row inside its fragment - checked on every run, a miss is exit 2) and "
+               "the installed jq 1.6, modulo a fixed documented list of 1.6 -> 1.7.1 changes. Disagreements are attributed to the "
+               "minimal sub-program so one root cause yields one signature.",
+    level_note="jq 1.7.1 itself is not installed: the oracle is a model. Trusted base = agreement with the 574 recorded traces inside the "
+               "fragment and with jq 1.6 on each judged pair; nothing stronger is claimed. Outside the fragment (counted, never judged): "
+               "regex and date builtins, number literals whose 1.7.1 canonical spelling differs from the shortest double rendering, "
+               "fractional indices, ?//, $__loc__/input/env/halt/debug, builtins added in 1.7/1.7.1 without a recorded trace, path "
+               "identity of equal non-scalar values. Transcendental libm results are compared to 4 ulp (the traces pin 6 digits only). "
+               "jq 1.6 is consulted in bulk (hundreds of programs wrapped with try/catch markers in one jq process); the wrapping is "
+               "re-checked against plain runs on a slice each run. Batch observations: 100 jobs re-run as real processes each run, "
+               "and the example of every reported signature is confirmed by a real process. Thorough has a 13 min wall cap "
+               "(unfinished shards are reported as a cap and the sub-space is marked non-exhaustive).",
+    assumptions=["one JSON document per invocation, passed on stdin on one line followed by a newline (error location `<stdin>:1`)",
+                 "the (at <stdin>:N) location prefix and the exit status 5 are compared, since the current CLI emits both like jq "
+                 "(limitations.md still describes the older behaviour)",
+                 "documented divergences are read from docs/compliance/jq/limitations.md only; docs/reference/jq-language.md lists further "
+                 "known gaps, which are reported as findings with a note",
+                 "programs deeper than P(2) and inputs beyond the 17 documents are out of scope"],
 )
